@@ -287,7 +287,8 @@ impl Fdt {
             return self.duration - std::time::Duration::from_secs(1) < duration;
         }
 
-        self.duration <= duration
+        // Short-lived FDT: renew it when three quarters of its lifetime have elapsed
+        self.duration - self.duration / 4 <= duration
     }
 
     pub fn get_next_fdt_transfer(&mut self, now: SystemTime) -> Option<Arc<FileDesc>> {
